@@ -80,10 +80,12 @@ OpsOfWrite(first, withShx, t, num, off, s) ==
     \o << At("shp", OpW(EncodeRecord(num, s))) >>
     \o (IF withShx THEN << At("shx", OpW(BE32(off) \o BE32(ContentWords(s)))) >> ELSE << >>)
 
+\* (after rewriting a header the writer returns to the end of what IT wrote -- an absolute offset -- not to the end
+\* of the destination, which may hold older, longer content: the repaired behaviour, known_findings C11-reused)
 OpsOfFinalize(withShx, t, len, box, n) ==
-    << At("shp", OpS(0)), At("shp", OpW(EncodeHeader(len, t, box))), At("shp", OpS(-1)), At("shp", OpF(n)) >>
+    << At("shp", OpS(0)), At("shp", OpW(EncodeHeader(len, t, box))), At("shp", OpS(2 * len)), At("shp", OpF(n)) >>
     \o (IF withShx
-        THEN << At("shx", OpS(0)), At("shx", OpW(EncodeHeader(50 + 4 * n, t, box))), At("shx", OpS(-1)), At("shx", OpF(n)) >>
+        THEN << At("shx", OpS(0)), At("shx", OpW(EncodeHeader(50 + 4 * n, t, box))), At("shx", OpS(100 + 8 * n)), At("shx", OpF(n)) >>
         ELSE << >>)
 
 RECURSIVE OpsFor(_, _)
